@@ -375,6 +375,13 @@ extern "C" int sim_madvise(void* addr, size_t len, int advice) {
     char d[256]; os_describe_addr(addr, d, sizeof d);
     sim_violation("foreign_os_call", "madvise(0x%llx, 0x%llx, %s) touches memory that is not mapped by the allocator: %s", (unsigned long long)a, (unsigned long long)len, os_kind_names[kind], d);
   }
+  if (kind == OS_MADV_FREE) {
+    // a reset (MADV_FREE is only used for that) of memory that is not committed is invalid: the allocator's own rule
+    // ("never reset uncommitted memory", src/arena.c:mi_arena_purge, src/segment.c:mi_segment_purge) and C13's "never touches memory it has decommitted"
+    uint64_t bad = 0;
+    for_pages(a, l, [&](Region& r, uint64_t i0, uint64_t i1) { if (!r.donated) for (uint64_t i = i0; i < i1; i++) if (!r.prot[i] && !bad) bad = r.start + i * PAGE; });
+    if (bad) { log_call(kind, a, len, 0, 0, false); sim_violation("reset_uncommitted", "madvise(0x%llx, 0x%llx, MADV_FREE): the allocator resets memory that is not committed (first inaccessible page 0x%llx)", (unsigned long long)a, (unsigned long long)len, (unsigned long long)bad); }
+  }
   if (g_os_purge_hook) g_os_purge_hook(kind, a, l);
   { Region* hr = region_containing(a);
     if (hr && hr->hp) {   // hugetlb mapping (Linux >= 5.18 semantics): only huge pages that are covered completely are dropped (and read as zero afterwards)
